@@ -65,7 +65,7 @@ func (st *State) stringConst(s string, t types.Type) Val {
 		t = types.Typ[types.String]
 	}
 	if len(s) == 0 {
-		return mkString(t, "((as const (Array Int Int)) 0)", "0")
+		return mkString(t, "((as const (Array Int Int)) 0)", "0", "0")
 	}
 	key := fmt.Sprintf("g_str_%x", s)
 	if len(key) > 60 {
@@ -82,7 +82,7 @@ func (st *State) stringConst(s string, t types.Type) Val {
 		}
 		st.facts = st.facts.push(sAnd(fs...))
 	}
-	return mkString(t, key, sInt(int64(len(s))))
+	return mkString(t, key, "0", sInt(int64(len(s))))
 }
 
 func hashString(s string) uint64 {
@@ -195,6 +195,14 @@ func (st *State) globalVal(o *types.Var) Val {
 		for _, f := range st.typeFactsAt(v, st.fc.entryAlloc()) {
 			st.facts = st.facts.push(f)
 		}
+	}
+	if v.K == KSlice && !o.Exported() {
+		// an unexported package-level slice that is never handed out does not alias any parameter
+		for _, a := range st.fc.inputArrs {
+			st.facts = st.facts.push(sOr(sNot(sEq(v.arr(), a)), sEq(a, "0")))
+		}
+		st.facts = st.facts.push(sNot(sEq(v.arr(), "0")))
+		st.fc.noteAssumption("unexported package-level slice " + pkgName + "." + o.Name() + " is not aliased by any parameter (it is never returned or stored by the package)")
 	}
 	st.fc.noteAssumption("package-level variable " + pkgName + "." + o.Name() + " is only written by init/contracted functions")
 	return v
@@ -442,7 +450,7 @@ func (st *State) indexVal(base Val, bt types.Type, idx Val, pos token.Pos, what 
 		return st.named(st.loadElem(nil, base, idx.S), "elem")
 	case KString:
 		st.oblige("bounds", "index("+what+")", sAnd(sCmp("<=", "0", idx.S), sCmp("<", idx.S, base.length())), pos)
-		v := vInt(sSel(base.content(), idx.S), types.Typ[types.Uint8])
+		v := vInt(base.at(idx.S), types.Typ[types.Uint8])
 		return st.named(v, "ch")
 	case KArray:
 		at := base.T.Underlying().(*types.Array)
@@ -495,13 +503,7 @@ func (st *State) sliceVal(base Val, bt types.Type, lo, hi, max *Val, pos token.P
 			h = hi.S
 		}
 		st.oblige("bounds", "slice("+what+")", sAnd(sCmp("<=", "0", l), sCmp("<=", l, h), sCmp("<=", h, base.length())), pos)
-		if l == "0" {
-			return mkString(base.T, base.content(), h)
-		}
-		// shifted view of the content
-		c := st.fc.fresh("substr", "(Array Int Int)")
-		st.assume(fmt.Sprintf("(forall ((g_k Int)) (! (= (select %s g_k) (select %s (+ g_k %s))) :pattern ((select %s g_k))))", c, base.content(), l, c))
-		return mkString(base.T, c, st.define("slen", "Int", sSub(h, l)))
+		return mkString(base.T, base.content(), st.define("soff", "Int", sAdd(base.soff(), l)), st.define("slen", "Int", sSub(h, l)))
 	case KSlice:
 		h := base.length()
 		if hi != nil {
@@ -674,14 +676,14 @@ func (st *State) equal(a, b Val, ta, tb types.Type) string {
 		if n, ok := isNum(b.length()); ok && n.Int64() <= 64 {
 			fs := []string{sEq(a.length(), b.length())}
 			for i := int64(0); i < n.Int64(); i++ {
-				fs = append(fs, sEq(sSel(a.content(), sInt(i)), sSel(b.content(), sInt(i))))
+				fs = append(fs, sEq(a.at(sInt(i)), b.at(sInt(i))))
 			}
 			return sAnd(fs...)
 		}
 		if n, ok := isNum(a.length()); ok && n.Int64() <= 64 {
 			return st.equal(b, a, tb, ta)
 		}
-		return sAnd(sEq(a.length(), b.length()), fmt.Sprintf("(forall ((g_k Int)) (=> (and (<= 0 g_k) (< g_k %s)) (= (select %s g_k) (select %s g_k))))", a.length(), a.content(), b.content()))
+		return sAnd(sEq(a.length(), b.length()), fmt.Sprintf("(forall ((g_k Int)) (=> (and (<= 0 g_k) (< g_k %s)) (= %s %s)))", a.length(), a.at("g_k"), b.at("g_k")))
 	case KStruct:
 		var fs []string
 		s := a.T.Underlying().(*types.Struct)
@@ -964,13 +966,20 @@ func (st *State) convert(v Val, from, to types.Type, pos token.Pos, what string)
 		c := st.fc.fresh("strof", "(Array Int Int)")
 		h := st.heapGet(elemHeapName(types.Typ[types.Uint8], Comp{Path: ""}), "(Array Int (Array Int Int))")
 		st.assume(fmt.Sprintf("(forall ((g_k Int)) (! (= (select %s g_k) (select (select %s %s) (+ %s g_k))) :pattern ((select %s g_k))))", c, h, v.arr(), v.off(), c))
-		return mkString(to, c, v.length())
+		return mkString(to, c, "0", v.length())
 	case ct == tcSlice && (cf == tcString || cf == tcTParamSeq):
 		// []byte(s): fresh array with the same content
 		arr := st.allocRef()
 		name := elemHeapName(types.Typ[types.Uint8], Comp{Path: ""})
 		h := st.heapGet(name, "(Array Int (Array Int Int))")
-		st.heapSet(name, "(Array Int (Array Int Int))", sStore(h, arr, v.content()))
+		if v.soff() == "0" {
+			st.heapSet(name, "(Array Int (Array Int Int))", sStore(h, arr, v.content()))
+		} else {
+			row := st.fc.fresh("row", "(Array Int Int)")
+			st.assume(fmt.Sprintf("(forall ((g_k Int)) (! (= (select %s g_k) %s) :pattern ((select %s g_k))))", row, v.at("g_k"), row))
+			st.heapSet(name, "(Array Int (Array Int Int))", sStore(h, arr, row))
+		}
+		st.noteWrite(name, arr)
 		return mkSlice(to, arr, "0", v.length(), v.length())
 	case ct == tcSlice && cf == tcSlice, ct == tcPtr && cf == tcPtr, ct == tcStruct && cf == tcStruct, ct == tcBool, ct == tcArray && cf == tcArray, ct == tcMap, ct == tcFunc:
 		v.T = to
